@@ -130,6 +130,33 @@ macro_rules! debug_jobserver {
     }}
 }
 
+/// Verification hook: append one line per token-book event to the file named by
+/// `REDO_VERIF_TRACE` (nothing is written unless the variable is set).
+#[cfg(feature = "verif-hooks")]
+pub(crate) fn verif_token_event(kind: &str, state: &ServerState, detail: &str) {
+    use std::io::Write;
+    if let Some(path) = env::var_os("REDO_VERIF_TRACE") {
+        if let Ok(mut f) = std::fs::OpenOptions::new()
+            .append(true)
+            .create(true)
+            .open(path)
+        {
+            let _ = f.write_all(
+                format!(
+                    "tok {} {} {} {} {} {}\n",
+                    process::id(),
+                    kind,
+                    state.my_tokens,
+                    state.cheats,
+                    state.wait_fds.len(),
+                    detail
+                )
+                .as_bytes(),
+            );
+        }
+    }
+}
+
 /// Metadata about a running job.
 #[derive(Debug)]
 pub(crate) struct Job {
@@ -304,6 +331,12 @@ impl JobServer {
 
     /// Get a clonable handle to the server.
     pub fn handle(&self) -> JobServerHandle {
+        #[cfg(feature = "verif-hooks")]
+        verif_token_event(
+            "begin",
+            &self.state.borrow(),
+            &self.params.top_level.to_string(),
+        );
         JobServerHandle {
             params: self.params.clone(),
             state: self.state.clone(),
@@ -404,6 +437,8 @@ impl JobServer {
                                 }
                                 Some(1) => {
                                     state.my_tokens += 1;
+                                    #[cfg(feature = "verif-hooks")]
+                                    verif_token_event("read", &state, "");
                                     debug_jobserver!("read a token ({:?}).", &b);
                                     if let Some((_, w)) = state.token_wakers.pop_front() {
                                         w.wake();
@@ -428,9 +463,13 @@ impl JobServer {
                                 // someone exited with _cheats > 0, so we need to compensate
                                 // by *not* re-creating a token now.
                                 debug_jobserver!("EAT cheatfd {:?}", &b);
+                                #[cfg(feature = "verif-hooks")]
+                                verif_token_event("reap_eat", &state, "");
                             }
                             Ok(None) | Ok(Some(0)) => {
                                 state.create_tokens(1);
+                                #[cfg(feature = "verif-hooks")]
+                                verif_token_event("reap_create", &state, "");
                                 if state.has_token() {
                                     state
                                         .release_except_mine(self.params.token_fds)
@@ -515,6 +554,12 @@ impl JobServer {
             write_tokens(self.params.cheat_fds.1, state.cheats as usize)
                 .map_err(RedoError::opaque_error)?;
         }
+        #[cfg(feature = "verif-hooks")]
+        verif_token_event(
+            "exit",
+            &state,
+            &format!("{} {}", self.params.top_level, n),
+        );
         Ok(())
     }
 }
@@ -611,6 +656,8 @@ impl ServerState {
         }
         assert!(self.my_tokens >= 0);
         assert!(self.cheats >= 0);
+        #[cfg(feature = "verif-hooks")]
+        verif_token_event("release", self, &format!("{} {}", n, n_to_share));
         if n_to_share > 0 {
             debug_jobserver!("PUT tokenfds {}", n_to_share);
             write_tokens(token_fds.1, n_to_share)?;
@@ -663,6 +710,8 @@ impl JobServerHandle {
             // Subprocesses always start with 1 token, so we have to destroy ours
             // in order for the universe to stay in balance.
             state.destroy_tokens(1);
+            #[cfg(feature = "verif-hooks")]
+            verif_token_event("start", &state, "");
         }
         let (r, w) = make_pipe(50).map_err(RedoError::opaque_error)?;
         match unsafe { unistd::fork() }.map_err(RedoError::opaque_error)? {
@@ -791,6 +840,8 @@ impl JobServerHandle {
                         let mut state = self.state.borrow_mut();
                         state.my_tokens += n;
                         state.cheats += n;
+                        #[cfg(feature = "verif-hooks")]
+                        verif_token_event("cheat", &state, &n.to_string());
                         return Ok(());
                     }
                 }
@@ -893,6 +944,12 @@ impl AllJobsDone {
             .map_err(RedoError::opaque_error)?
             .unwrap_or(0);
         debug_jobserver!("toplevel: GOT {} tokens and {} cheats", tokens, cheats);
+        #[cfg(feature = "verif-hooks")]
+        verif_token_event(
+            "selftest",
+            &self.state.borrow(),
+            &format!("{} {} {}", tokens, cheats, self.params.top_level),
+        );
         if (tokens - cheats) as i32 != self.params.top_level {
             return Err(RedoError::new(format!(
                 "on exit: expected {} tokens; found {}-{}",
